@@ -104,10 +104,16 @@ func lockCMS(c *Ctx) {
 			r2.Update(pool[j], cnt)
 			hist = append(hist, fmt.Sprintf("B:U%d+%d", j, cnt))
 		case 1:
-			e1 := m.Merge(m2)
-			e2 := r.Merge(r2)
+			var e1, e2 error
+			if c.rng.Intn(4) == 0 {
+				// a sketch merged with itself (the Redis one: through whichever handle): counts double
+				e1, e2 = m.Merge(m), r.Merge(r)
+				hist = append(hist, "self-merge")
+			} else {
+				e1, e2 = m.Merge(m2), r.Merge(r2)
+				hist = append(hist, "merge")
+			}
 			c.op("cms.Merge")
-			hist = append(hist, "merge")
 			if (e1 == nil) != (e2 == nil) {
 				c.fail([]string{"C08"}, "cms-lockstep", fmt.Sprintf("%s: Merge mem err=%v redis err=%v", cfg, e1, e2), hist)
 				return
